@@ -375,6 +375,36 @@ pub fn drive_srv(ctx: &mut Ctx, rng: &mut Rng) {
     for bit in 0..256 { let mut s = srv.clone(); s[bit / 8] ^= 1 << (bit % 8); cases.push(Some(s)); }
     for l in [0usize, 4, 28, 36, 64] { let mut s = srv.clone(); s.resize(l, 0xaa); cases.push(Some(s)); }
     cases.push(Some(interp::srv_of_pk(&interp::pk_of_seed(&[7u8; 32]))));   // another server's value
+    // long version lists (beyond the enumerated lengths): draft-13 first, second, fourth, fifth, last, absent, for list lengths
+    // around the widths a narrowed counter wraps on
+    for n in [7usize, 8, 9, 64, 127, 128, 255, 256, 257, 258, 259, 260, 300] {
+        for pos in [Some(0usize), Some(1), Some(3), Some(4), Some(n - 1), None] {
+            let mut vers: Vec<u32> = (0..n).map(|k| 0x4000_0000 + k as u32).collect();
+            if let Some(pp) = pos { vers[pp] = proto::VER_DRAFT13; }
+            let nonce = rng.bytes(32);
+            let d = proto::build_request(Proto::Ietf, &nonce, 1024usize.max(4 * n + 120) & !3, &vers, None);
+            if d.len() > 1500 { continue; }
+            let s = sentinel(rng, n as u64);
+            run_round(ctx, &mut rig, vec![(0, d), (1, s)], vec![], false);
+        }
+    }
+    // well-formed requests whose LAST field (and whose first) is empty
+    for p in [Proto::Google, Proto::Ietf] {
+        let nonce = rng.bytes(if p == Proto::Google { 64 } else { 32 });
+        let mut fields: Vec<(u64, Vec<u8>)> = vec![];
+        if p == Proto::Ietf { fields.push((rc::VER, proto::VER_DRAFT13.to_le_bytes().to_vec())); }
+        fields.push((rc::NONC, nonce));
+        fields.push((rc::ZZZZ, vec![0u8; 960]));
+        fields.push((rc::PAD, vec![]));                         // the highest tag carries nothing
+        for with_empty_first in [false, true] {
+            let mut f2 = fields.clone();
+            if with_empty_first { f2.insert(0, (rc::SIG, vec![])); }
+            let enc = rc::ref_encode(&f2);
+            let d = if p == Proto::Ietf { rc::ref_frame(&enc) } else { enc };
+            let s = sentinel(rng, 1);
+            run_round(ctx, &mut rig, vec![(0, d), (1, s)], vec![], false);
+        }
+    }
     for (k, c) in cases.iter().enumerate() {
         let nonce = rng.bytes(32);
         let d = proto::build_request(Proto::Ietf, &nonce, 1024, &[proto::VER_DRAFT13], c.as_deref());
@@ -758,7 +788,24 @@ pub fn drive_cfgleak(ctx: &mut Ctx, rng: &mut Rng, workdir: &str) {
             format!("interface: 127.0.0.1\nport: 8686\nseed: {}\nkms_protection:\n", sh),
             format!("seed: {}\nport: 8686\ninterface: 127.0.0.1\nclient_stats: on\npersistence_directory: {}\n", sh, workdir),
             format!("interface: 127.0.0.1\nseed: {}\nport:\n", sh),
+            // a top level that is not a mapping: colons without a space fold the file into one scalar; settings written as a list
+            format!("interface:127.0.0.1\nport:8686\nseed:{}\n", sh),
+            format!("- interface: 127.0.0.1\n- port: 8686\n- seed: {}\n", sh),
+            format!("{}\n", sh),
+            format!("seed: [{}]\nport: 8686\ninterface: 127.0.0.1\n", sh),
+            format!("seed: {{value: {}}}\nport: 8686\ninterface: 127.0.0.1\n", sh),
         ];
+        // the environment source with a seed that carries the key material but is not clean hex
+        for (di, deco) in [format!("0x{}", sh), format!("{} ", sh), format!("\"{}\"", sh), format!("{}0", sh), format!(" {}", sh), sh.to_uppercase()].iter().enumerate() {
+            let all_env = ["PORT", "INTERFACE", "SEED", "BATCH_SIZE", "STATUS_INTERVAL", "KMS_PROTECTION", "HEALTH_CHECK_PORT", "CLIENT_STATS", "FAULT_PERCENTAGE", "NUM_WORKERS", "PERSISTENCE_DIRECTORY"];
+            for k in all_env { std::env::remove_var(format!("ROUGHENOUGH_{}", k)); }
+            std::env::set_var("ROUGHENOUGH_PORT", "8686"); std::env::set_var("ROUGHENOUGH_INTERFACE", "127.0.0.1"); std::env::set_var("ROUGHENOUGH_SEED", deco);
+            let r = crate::util::guarded(|| match make_config("ENV") { Ok(c) => format!("valid={}", is_valid_config(c.as_ref())), Err(e) => format!("{:?}", e) });
+            for k in all_env { std::env::remove_var(format!("ROUGHENOUGH_{}", k)); }
+            let t = match r { Ok(s) => s, Err(p) => p };
+            ctx.emit(json!({"ev": "log", "level": 1, "site": format!("config result / panic text, decorated environment seed {}", di), "leak": secrets.found_in(t.as_bytes())}));
+            for (lvl, site, t) in rig::take_logs() { ctx.emit(json!({"ev": "log", "level": lvl, "site": site, "leak": secrets.found_in(t.as_bytes()), "variant": 200 + di})); }
+        }
         for (ri, text) in raw.iter().enumerate() {
             let p = format!("{}/leak_raw.yaml", workdir);
             std::fs::write(&p, text).unwrap();
@@ -908,6 +955,9 @@ pub fn drive_slowdrain(ctx: &mut Ctx, rng: &mut Rng, thorough: bool) {
         let rg = valid_request(rng, Proto::Google, 1024, None);
         let ri = valid_request(rng, Proto::Ietf, 1024, None);
         run_round(ctx, &mut rig, vec![(0, rg.clone()), (1, ri.clone())], vec![], false);
+        // a batch that holds nothing to answer, then an idle period longer than the radius: whatever the worker noted for that
+        // batch (a clock reading, a signed result) must not reach the next one
+        run_round(ctx, &mut rig, vec![(2, rng.bytes(1024)), (3, vec![0u8; 1024])], vec![], false);
         std::thread::sleep(std::time::Duration::from_millis(5600));
         run_round(ctx, &mut rig, vec![(0, rg.clone())], vec![], false);
         run_round(ctx, &mut rig, vec![(1, ri.clone())], vec![], false);
